@@ -46,6 +46,37 @@ def _install():
 
     fnutil.set_first_arg_type = _set_first_arg_type
 
+    # (5) `d[key]` on a real dict with a key that is not an int/float/str is rewritten by CrossHair into a linear search
+    #     (SimpleDict, "won't hash the keys it's given") so that symbolic keys work -- which also turns the TypeError of an
+    #     UNHASHABLE key (a list, a tuple holding a list, a dict, a set) into a KeyError.  pane's converters look converted
+    #     values up in dicts (enum values, tags), and "unhashable" must surface as it does in CPython.  Keys that are
+    #     unhashable by their structure alone (whatever their symbolic leaves are) are left to the real dict.
+    from crosshair import opcode_intercept as _oi
+    _orig_subscr = _oi.SymbolicSubscriptInterceptor.trace_op
+
+    def _structurally_unhashable(key, depth=0):
+        if isinstance(key, (list, dict, set, bytearray)):
+            return True
+        if depth < 6 and type(key) in (tuple, frozenset):
+            for x in key:
+                if _structurally_unhashable(x, depth + 1):
+                    return True
+        return False
+
+    def _subscr(self, frame, codeobj, codenum):
+        try:
+            if codenum == _oi.BINARY_OP and _oi.frame_op_arg(frame) != 26:
+                return
+            key = _oi.frame_stack_read(frame, -1)
+            container = _oi.frame_stack_read(frame, -2)
+            if type(container) is dict and _structurally_unhashable(key):
+                return                      # the real dict raises TypeError: unhashable type
+        except Exception:
+            pass
+        return _orig_subscr(self, frame, codeobj, codenum)
+
+    _oi.SymbolicSubscriptInterceptor.trace_op = _subscr
+
     # (4) solver accounting: count z3 queries and solver time (written at exit by chx_stats)
     try:
         import z3
